@@ -639,6 +639,8 @@ def getitem(it, obj, idx):
         return it.call_ifunc(f, [obj, idx], {})
     if V.is_sym(obj):
         raise Unsupported("subscript of %r" % (obj,))
+    if getattr(obj, "__symx__", False):
+        return obj.symx_getitem(it, idx)
     f = it.lookup_special(obj, "__getitem__")
     if f is not None:
         return it.call_value(f, [idx], {})
@@ -1228,6 +1230,8 @@ def b_len(it, x):
         for c, y in reversed(outs[:-1]):
             v = merge(c, y, v)
         return v
+    if getattr(x, "__symx__", False):
+        return x.symx_len(it)
     f = it.lookup_special(x, "__len__")
     if f is not None:
         return it.call_value(f, [], {})
